@@ -73,12 +73,32 @@ def run(ctx):
         # long runs with the optimum on a bound (sizes shrink to rounding level next to the bound: the returned point must still be
         # the evaluated one, bit for bit)
         for nm in problems.GLOBAL + ["NLOPT_LN_NELDERMEAD", "NLOPT_LN_SBPLX", "NLOPT_LN_PRAXIS", "NLOPT_LN_COBYLA", "NLOPT_LN_BOBYQA"]:
-            for rep in range(4 if ctx.thorough else 2):
+            scaled = nm in ("NLOPT_GN_DIRECT", "NLOPT_GN_DIRECT_L", "NLOPT_GN_DIRECT_L_RAND", "NLOPT_GN_ORIG_DIRECT", "NLOPT_GN_ORIG_DIRECT_L")
+            for rep in range((30 if scaled else 4) if ctx.thorough else (8 if scaled else 2)):     # unit-cube variants: the back-map rounds
                 p = problems.gen_problem(rng, A, alg_name=nm, box="opt_outside", with_constraints=False, maxeval=(4000 if nm in problems.GLOBAL else 800),
                                          n=rng.choice([1, 2]) if nm not in ("NLOPT_LN_BOBYQA",) else 2)
                 for k in ("stopval", "maxtime", "clockq", "clock0", "ftol_rel", "xtol_abs", "xtol_rel"):
                     p.pop(k, None)
                 p["obj"] = rng.choice([0, 3])
+                if scaled and rep % 2 == 1:
+                    # decimal bounds, optimum beyond a bound: lb + t*(ub - lb) with t -> 1 is where the back-map of the unit cube rounds
+                    lb, ub = problems.gen_box(rng, p["n"], "decimal")
+                    p["lb"], p["ub"] = lb, ub
+                    p["x0"] = [(a + b) / 2 for a, b in zip(lb, ub)]
+                    p["oc"] = [b + 0.7 if rng.random() < 0.7 else a - 0.7 for a, b in zip(lb, ub)]
+                    p["obj"] = 0
+                    p.pop("max", None)
+                    p["maxeval"] = 1500
+                ps.append(p)
+        for nm in ("NLOPT_GN_DIRECT", "NLOPT_GN_DIRECT_L", "NLOPT_GN_DIRECT_L_RAND", "NLOPT_GN_ORIG_DIRECT", "NLOPT_GN_ORIG_DIRECT_L"):
+            for rep in range(40 if ctx.thorough else 14):
+                n = 1 if rep % 3 else 2
+                p = problems.gen_problem(rng, A, alg_name=nm, n=n, box="decimal", with_constraints=False, maxeval=(1500 if n == 1 else 3000), allow_max=False)
+                for k in ("stopval", "maxtime", "clockq", "clock0", "ftol_rel", "xtol_abs", "xtol_rel"):
+                    p.pop(k, None)
+                p["x0"] = [(a + b) / 2 for a, b in zip(p["lb"], p["ub"])]
+                p["oc"] = [b + 0.7 if rng.random() < 0.75 else a - 0.7 for a, b in zip(p["lb"], p["ub"])]
+                p["obj"] = 0
                 ps.append(p)
         batch = runcheck.run_batch(ctx, bdir, A, ps, [monitors.mon_returned_point], "all algorithms, early exits")
         # two-stage stopval family with a NON-CONVEX feasible set (outside of a ball): first the run without stopval, then the same
